@@ -169,6 +169,11 @@ class Ctl(Harness):
             add("fixnls", 2, 1, cb="kw", npt=2)
             add("nlub", 2, 1, npt=2)
             add("linnl", 2, 1, npt=2)
+            add("unc1", 3, 1, faults=1, ill=1)
+            add("box1", 3, 1, cb="lambda-pos", scribble=True)
+            add("box2s", 3, 1, cb="obj-kw", npt=3, scribble=True)
+            add("fixed1", 3, 1, cb="partial-pos")
+            add("linub", 3, 1, cb="partial-kw")
             add("unc1", 3, 1, repeat=True)
             add("box1", 3, 1, cb="pos", repeat=True)
             add("nlub", 2, 1, npt=2, repeat=True)
@@ -181,6 +186,15 @@ class Ctl(Harness):
                 add(pb, 3, 2, kinds="all", npt=n + 1)
                 add(pb, 6, 2, npt=n + 1)
                 add(pb, 2, 2, cb="pos", kinds="all")
+            for pb in ("unc1", "box1", "lineq", "nlub"):
+                add(pb, 4, 2, faults=1, ill=1, menu=3, npt=PROBLEMS[pb]["n"] + 1)
+                add(pb, 3, 1, cb="obj-kw", scribble=True, npt=PROBLEMS[pb]["n"] + 1)
+                add(pb, 3, 1, cb="partial-pos", scribble=True, npt=PROBLEMS[pb]["n"] + 1)
+            add("unc1", 4, 2, repeat=True)
+            add("box1", 3, 1, cb="pos", repeat=True)
+            add("nlub", 3, 1, npt=2, repeat=True)
+            add("unc1", 3, 1, nested=True)
+            add("box1", 3, 1, nested=True)
         def keep(d):
             P = PROBLEMS[d["pb"]]
             if prop == "C20":
@@ -402,12 +416,32 @@ class Ctl(Harness):
                 cbstate["stopped"] = True
                 raise StopIteration
 
-        if shape["cb"] == "pos":
+        cbk = shape["cb"]
+        if cbk == "pos":
             def callback(xk):
                 cb_core(xk, None)
-        elif shape["cb"] == "kw":
+        elif cbk == "kw":
             def callback(intermediate_result):
                 cb_core(intermediate_result.x, intermediate_result.fun)
+        elif cbk == "lambda-pos":
+            callback = lambda xk: cb_core(xk, None)
+        elif cbk == "obj-kw":
+            class _CB:
+                def __call__(self, intermediate_result):
+                    cb_core(intermediate_result.x, intermediate_result.fun)
+            callback = _CB()
+        elif cbk == "partial-pos":
+            import functools
+
+            def _two(tag, xk):
+                cb_core(xk, None)
+            callback = functools.partial(_two, "tag")
+        elif cbk == "partial-kw":
+            import functools
+
+            def _twok(tag, intermediate_result):
+                cb_core(intermediate_result.x, intermediate_result.fun)
+            callback = functools.partial(_twok, "tag")
         else:
             callback = None
 
@@ -780,7 +814,7 @@ class Ctl(Harness):
                     C("C20", "callback_point_in_user_space_within_bounds",
                       len(r["x"]) == n and (b is None or not feasible_bounds or
                                             all(b[i][0] <= r["x"][i] <= b[i][1] for i in range(n))))
-                    if shape["cb"] == "kw":
+                    if shape["cb"].endswith("kw"):
                         # the fun passed along is the objective value of that point
                         km = [kk for kk in range(k + 1) if xus[kk] == r["x"]]
                         C("C20", "callback_fun_is_value_of_that_point",
@@ -790,7 +824,7 @@ class Ctl(Harness):
                 last = cbs[-1]
                 C("C20", "stop_returns_the_point_passed_to_the_callback",
                   b_and(all(abs(a - c) <= 1e-12 * max(1.0, abs(c)) for a, c in zip(rx, last["x"])),
-                        same_value(last["fun"], rf) if shape["cb"] == "kw" else True))
+                        same_value(last["fun"], rf) if shape["cb"].endswith("kw") else True))
                 C("C20", "stop_at_kth_call_gives_nfev_k_status_3",
                   res.nfev == o["cbstate"]["calls"] and (st == 3 or not feasible_bounds or all_fixed),
                   s=f"{sig}:fun={'y' if has_fun else 'none'}")
@@ -868,6 +902,8 @@ class Ctl(Harness):
 
     def required_goals(self, tier, prop):
         g = ["status_3", "status_5", "status_6"]
+        if prop in ("C07", "C08"):
+            g += ["status_-2"]
         if prop in ("C09", "C07"):
             g += ["callback_stopped", "status_1", "status_4"]
         if prop == "C20":
